@@ -130,7 +130,7 @@ impl Prop for C11 {
         if den >= 1e-3 * sc0.tot_weighted && den > 0.0 {
             let rt = ratio_tol(tol(sc0.tot_weighted, sc0.n), den);
             for (name, x, y) in [("rer", e0.rer, e1.rer), ("rer_nrb", e0.rer_nrb, e1.rer_nrb), ("rer_onst", e0.rer_onst, e1.rer_onst)] {
-                ensure!(((x - y).abs() as f64) <= 2.0 * rt, "ratios", "{}: {} for the base building, {} for the building scaled by {}", name, x, y, cf);
+                ensure!(((x - y).abs() as f64) <= 2.0 * rt * (1.0 + x.abs().max(y.abs()) as f64), "ratios", "{}: {} for the base building, {} for the building scaled by {}", name, x, y, cf);
             }
         } else {
             ctx.skip("ratio_den_noise");
